@@ -57,6 +57,10 @@ SHAPES = {
     # a NON-reflexive association whose ends carry phrases: relate / unrelate / navigation without the phrase are unknown links
     'one_many_phrased': {'classes': [C('A', 'Id', [('B_Id', 'unique_id')]), C('B', 'Id')],
                          'assocs': [A('R1', 0, ['B_Id'], True, True, 'is owned by', 1, ['Id'], False, True, 'owns')]},
+    # two associations whose numbers are prefixes of each other (R1 / R12): a restriction to one must not touch the other
+    'prefix_rels': {'classes': [C('A', 'Id', [('B_Id', 'unique_id'), ('D_Id', 'unique_id')]), C('B', 'Id'), C('D', 'Id')],
+                    'assocs': [A('R1', 0, ['B_Id'], True, True, '', 1, ['Id'], False, False, ''),
+                               A('R12', 0, ['D_Id'], True, True, '', 2, ['Id'], False, False, '')]},
     'two_assocs_shared_ref': {'classes': [C('A', 'Id', [('X_Id', 'unique_id')]), C('B', 'Id'), C('D', 'Id')],
                               'assocs': [A('R5', 0, ['X_Id'], True, True, '', 1, ['Id'], False, True, ''),
                                          A('R6', 0, ['X_Id'], False, True, '', 2, ['Id'], True, True, '')]},
